@@ -74,6 +74,22 @@ noisiest authorities insisted on its being received, for good or for evil, in th
         BigHead,
         /// (coverage audit, used by C02) n bytes of `big_corpus()` starting at offset 70000, i.e. beyond the first 64 KiB
         BigTail,
+        /// (used by C02) n bytes of `sampled_corpus()` starting at offset 97*k mod (len - n): low-entropy text over {A,C,G,T}
+        SampCut,
+    }
+
+    /// 24_000 bytes over {A,C,G,T} (xorshift): more than the 10_000 bytes above which SuffixArrayDictionary::new samples
+    /// its training text when the configuration has sample_ratio < 1 (every QuickConfig preset has)
+    pub fn sampled_corpus() -> Vec<u8> {
+        let mut x: u64 = 0x9E37_79B9_7F4A_7C15;
+        (0..24_000)
+            .map(|_| {
+                x ^= x << 13;
+                x ^= x >> 7;
+                x ^= x << 17;
+                b"ACGT"[(x >> 33) as usize & 3]
+            })
+            .collect()
     }
 
     /// 8192 distinct 16-byte records "<hhhhh|dddddddd>": 128 KiB in which every 16-byte window occurs once, so a
@@ -165,6 +181,12 @@ noisiest authorities insisted on its being received, for good or for evil, in th
                 let c = big_corpus();
                 let a = BIG_TAIL_OFFSET.min(c.len());
                 c[a..(a + n).min(c.len())].to_vec()
+            }
+            Sh::SampCut => {
+                let c = sampled_corpus();
+                let n = n.min(c.len());
+                let a = if c.len() > n { (97 * k) % (c.len() - n) } else { 0 };
+                c[a..a + n].to_vec()
             }
         }
     }
@@ -295,6 +317,7 @@ noisiest authorities insisted on its being received, for good or for evil, in th
                 for &shape in &self.shapes {
                     let ks: &[usize] = match shape {
                         Sh::Zero | Sh::Ones | Sh::CtxSkew | Sh::English | Sh::AllBytes | Sh::BigHead | Sh::BigTail => &[1],
+                        Sh::SampCut => &[0, 100, 239],
                         Sh::Period => &[1, 2, 3, 7, 8, 9, 10, 257, 258],
                         // distance of the only match; n is ignored, so the shape is enumerated for one n only
                         Sh::FarRepeat => {
@@ -895,6 +918,18 @@ thread_local! {
 }
 
 fn pazip_proto(corp: &str, preset: &str) -> Result<PaZipCompressor, String> {
+    if corp == "sampled" {
+        // the dictionary is built directly with a QuickConfig preset (sample_ratio 0.5) from 24_000 bytes: the constructor keeps
+        // a SAMPLE of the training text as dictionary text.  Fresh for every case (cheap: 24 KB).
+        return match catch(|| -> Result<PaZipCompressor, String> {
+            let dict = SuffixArrayDictionary::new(&sampled_corpus(), zipora::compression::dict_zip::QuickConfig::binary_compression()).map_err(es)?;
+            let pool = SecureMemoryPool::new(SecurePoolConfig::new(4096, 1024, 8)).map_err(es)?;
+            PaZipCompressor::new(dict, pazip_config(preset), pool).map_err(es)
+        }) {
+            Ok(r) => r,
+            Err(p) => Err(format!("panic: {}", p.detail)),
+        };
+    }
     if corp == "big" {
         // (coverage audit) the dictionary text is the whole 128 KiB corpus, built with the public
         // SuffixArrayDictionary::new (0.15 s).  Built afresh for every case and never cloned: cloning a compressor with
@@ -955,7 +990,7 @@ fn run_pazip(v: &str, x: &[u8], _t: &[u8], _tr: Train) -> Outcome {
         x,
         || {
             // "big" protos are fresh objects already (see pazip_proto)
-            let mut c = if corp == "big" { proto.take().expect("fresh compressor") } else { proto.as_ref().expect("proto").clone() };
+            let mut c = if corp == "big" || corp == "sampled" { proto.take().expect("fresh compressor") } else { proto.as_ref().expect("proto").clone() };
             if reused {
                 let mut y0 = Vec::new();
                 c.compress(b"an earlier record: the quick brown fox 0123456789 0123456789", &mut y0).map_err(es)?;
@@ -1462,6 +1497,15 @@ fn main() {
             variants: if q { sv(&["default/big"]) } else { sv(&["default/big", "realtime/big", "high_compression/big", "fast_compression/big"]) },
             trains: same.clone(),
             space: big_space,
+            run: run_pazip,
+        }));
+        // a dictionary whose constructor sampled its training text (QuickConfig preset, 24_000 training bytes); payloads cut
+        // from the training text (low entropy: global matches are found and chosen)
+        reg.add(Enum(Family {
+            name: "PaZipCompressor/sampled-dictionary",
+            variants: sv(&["default/sampled", "high_compression/sampled"]),
+            trains: same.clone(),
+            space: def(0, &[&[16, 64, 257, 1025]], &[256], &[Sh::SampCut, Sh::English]),
             run: run_pazip,
         }));
         reg.add(Enum(Family {
